@@ -386,3 +386,81 @@ Example term_gap_behaves :
   option_map r_term (get_region (h_cache h2) 1) = Some 5 /\
   snd (begin h2 1 (term_gap_region 3 3)) = HErr.
 Proof. vm_compute. auto. Qed.
+
+(* ---- an acknowledged reported term is remembered: after a heartbeat with a reported term was answered without an
+        error - at once because nothing changed, or by its locked section - the served term of its id is at least that
+        term (so the heartbeat of the leader of an older term is stale from then on) ---- *)
+Lemma flags_no_change_term r o :
+  negb (f_kv (compute_flags r (Some o))) && negb (f_cache (compute_flags r (Some o))) && negb (f_new (compute_flags r (Some o))) = true ->
+  r_term r <= r_term o.
+Proof.
+  cbn. intros H. apply andb_true_iff in H as [H _]. apply andb_true_iff in H as [_ H]. apply negb_true_iff in H.
+  repeat (apply orb_false_iff in H as [H ?]). apply Z.ltb_ge. assumption.
+Qed.
+
+Theorem acknowledged_term_begin_pf h t r h' : begin h t r = (h', HOk) ->
+  exists x, get_region (h_cache h') (r_id r) = Some x /\ r_term r <= r_term x.
+Proof.
+  unfold begin. destruct (th_get (h_threads h) t); [discriminate|].
+  destruct (precheck (h_cache h) r) as [origin err] eqn:PC. destruct err; [discriminate|].
+  destruct (negb _ && negb _ && negb _) eqn:ND; [|discriminate]. intros E. inversion E; subst h'.
+  assert (EO : origin = get_region (h_cache h) (r_id r)).
+  { unfold precheck in PC. destruct (relevant (h_cache h) r) as [og ov] eqn:RL.
+    pose proof (precheck_origin (h_cache h) r) as PO. rewrite RL in PO. cbn in PO. subst og.
+    destruct (existsb _ ov); [inversion PC|]. destruct (get_region (h_cache h) (r_id r)) as [o|]; [|inversion PC; reflexivity].
+    destruct (_ || _ || _); inversion PC; reflexivity. }
+  destruct origin as [o|]; [|cbn in ND; discriminate].
+  exists o. split; [symmetry; exact EO|]. apply flags_no_change_term, ND.
+Qed.
+
+Theorem acknowledged_term_step_pf h t r fl h' res : HInv h -> th_get (h_threads h) t = Some (PLock r fl) ->
+  0 < r_term r -> step h t = (h', res) -> res <> HErr ->
+  exists x, get_region (h_cache h') (r_id r) = Some x /\ r_term r <= r_term x.
+Proof.
+  intros [I TW] TG TP ST NE. destruct (TW _ _ _ (th_get_in _ _ _ TG)) as [W0 FC]. destruct (hb_ok_parts _ W0) as [W _].
+  unfold step in ST. rewrite TG, FC in ST.
+  destruct (precheck (h_cache h) r) as [origin err]. destruct err; [inversion ST; subst; congruence|].
+  pose proof (served_nonempty := fun c => get_after_put c r (r_id r)).
+  destruct (Inv_put _ r I W) as (I' & ET & _).
+  assert (G : get_region (fst (put_region (h_cache h) r)) (r_id r) = Some (keep_term (h_cache h) r)).
+  { destruct I' as (_ & HR' & (_ & N' & _)).
+    apply (regs_rep_get _ _ _ _ HR'). split; [|apply keep_term_id].
+    fold (cached (fst (put_region (h_cache h) r))). rewrite ET. apply spec_tree_in. left; reflexivity. }
+  assert (TK : r_term (keep_term (h_cache h) r) = r_term r).
+  { unfold keep_term. destruct (Z.eqb_spec (r_term r) 0); [lia|reflexivity]. }
+  destruct (put_region (h_cache h) r) as [c' ov]. cbn [fst] in G.
+  exists (keep_term (h_cache h) r). split; [|lia].
+  destruct (store_ops ov r fl); inversion ST; subst; exact G.
+Qed.
+
+(* ---- without "the id stays served" the clause is false: a region that is displaced from the cache (here by a split
+        child that reports first) leaves no memory of its epoch and term; a delayed heartbeat of it that covers only keys
+        whose present owner has not reported yet is accepted and the id is served again older than it was served ---- *)
+Definition epochs_monotone_across_displacement : Prop :=
+  forall wb ls1 ls2 id x x',
+    let h1 := exec hl_step (h_init wb) ls1 in
+    get_region (h_cache h1) id = Some x -> get_region (h_cache (exec hl_step h1 ls2)) id = Some x' ->
+    r_ver x <= r_ver x' /\ r_term x <= r_term x'.
+
+Definition gap_peers (id : Z) : list peer := [Peer (id * 10 + 1) 1 false; Peer (id * 10 + 2) 2 false; Peer (id * 10 + 3) 3 false].
+Definition gap_region (id : Z) (s e : list Z) (leader ver term stamp : Z) : region :=
+  Region id (K s) (K e) (gap_peers id) leader [] 10 ver 1 term stamp.
+Definition gap_hb (r : region) : list hlabel := [LBegin 1 r; LStep 1; LStep 1; LStep 1; LStep 1].
+
+Definition gap_prefix : list hlabel :=
+  gap_hb (gap_region 1 [] [99] 11 2 6 1) ++ gap_hb (gap_region 2 [99] [] 21 2 6 2) ++     (* 1 = ["","c") v2 t6, 2 = ["c","") *)
+  gap_hb (gap_region 1 [] [] 12 3 7 3) ++                                                   (* leader moves, 2 merged into 1 *)
+  gap_hb (gap_region 1 [109] [] 12 4 7 4).                                                  (* 1 splits at "m", keeps ["m","") v4 *)
+Definition gap_suffix : list hlabel :=
+  gap_hb (gap_region 4 [109] [116] 41 5 7 5) ++                                             (* child ["m","t") v5 reports first: displaces 1 *)
+  gap_hb (gap_region 1 [] [99] 11 2 6 6).                                                   (* the delayed heartbeat of step 1 *)
+
+Theorem epochs_monotone_across_displacement_refuted_pf : ~ epochs_monotone_across_displacement.
+Proof.
+  intros H. specialize (H false gap_prefix gap_suffix 1 (gap_region 1 [109] [] 12 4 7 4) (gap_region 1 [] [99] 11 2 6 6)).
+  cbn zeta in H.
+  assert (G1 : get_region (h_cache (exec hl_step (h_init false) gap_prefix)) 1 = Some (gap_region 1 [109] [] 12 4 7 4)) by (vm_compute; reflexivity).
+  assert (G2 : get_region (h_cache (exec hl_step (exec hl_step (h_init false) gap_prefix) gap_suffix)) 1 = Some (gap_region 1 [] [99] 11 2 6 6))
+    by (vm_compute; reflexivity).
+  destruct (H G1 G2) as [V _]. vm_compute in V. apply V. reflexivity.
+Qed.
